@@ -21,31 +21,39 @@ VERIF = os.path.dirname(os.path.dirname(os.path.abspath(__file__)))
 
 USED = (
     "memory layout (Fortran / transposed arrays), integer / float32 / mixed dtypes, pandas containers with permuted index, tiny or huge "
-    "magnitudes (allclose-style absolute tolerances), exact boundary / tie values and values NEAR a boundary or tie, sizes at multiples of a "
-    "block size, caches keyed on identity or summary statistics, results aliasing internal buffers, in-place modification of arguments, "
-    "state kept across calls (refit, re-configuration with set_params, failed call then valid call), duplicate names, xarray construction "
-    "order, equivalent spellings of an argument (int vs float, numpy bool, scalar vs sequence, falsy values, positional vs keyword), "
-    "decreasing or uneven grid axes, leading whitespace, duck-typed steps, clone / get_params fidelity, 0-d and single-element shapes, "
-    "NaN / inf in ignored extra coordinates or among used values, reductions other than mean/median/sum/min/max, one-shot iterables, "
-    "keyword arguments forwarded through **kwargs, duplicate data locations, non-injective projections, late binding in generators, "
-    "accuracy lost by reordering arithmetic at large coordinate offsets, label dtype overflow for many blocks"
+    "magnitudes (allclose-style absolute tolerances, squares that under/overflow), exact boundary / tie values and values NEAR a boundary or "
+    "tie, sizes at multiples of a block size, LARGE counts above a threshold (1e5 points, 2**17 queries, 2**18 nodes, 1e7 matrix elements: "
+    "chunked loops losing the remainder, fast paths), caches keyed on identity or summary statistics, results aliasing internal buffers, "
+    "in-place modification of arguments, state kept across calls (refit, re-configuration with set_params, failed call then valid call), "
+    "CONCURRENT calls from several threads (module-level scratch arrays, per-call values parked on self, shared fitted helpers), pickle / "
+    "deepcopy of fitted objects, duplicate names, xarray construction order, equivalent spellings of an argument (int vs float, numpy bool, "
+    "scalar vs sequence, falsy values, positional vs keyword), decreasing or uneven grid axes, leading whitespace, duck-typed steps, clone / "
+    "get_params fidelity, 0-d and single-element shapes, NaN / inf in ignored extra coordinates or among used values, masked arrays, nested "
+    "lists, reductions other than mean/median/sum/min/max, one-shot iterables, keyword arguments forwarded through **kwargs, the kind of "
+    "random_state (None / int / RandomState), numpy's global error mode, duplicate data locations, non-injective projections, late binding "
+    "in generators, accuracy lost by reordering arithmetic at large coordinate offsets, label dtype overflow for many blocks, far "
+    "extrapolation, broadcast-compatible shapes accepted as equal, pathlib / bytes paths, all-negative values"
 )
 
 IDEAS = (
-    "input CONTAINERS nobody has tried: numpy masked arrays, np.memmap, read-only arrays, xarray.DataArray or pandas.DataFrame columns as "
-    "coordinates / data, lists of lists, tuples vs lists vs arrays for the coordinate pair itself, objects that only implement __array__; "
-    "EMPTY inputs (zero points, zero blocks, zero sizes) versus one element; LARGE counts (1e5..1e6 points or nodes) where a chunked, "
-    "vectorised or 'fast path' branch is taken only above a threshold; dependence on GLOBAL state (numpy's global RNG or np.random.seed, "
-    "np.seterr / np.errstate, warnings filters set to 'error', the PYTHONHASHSEED-dependent order of a set or dict, the current working "
-    "directory, locale); the TYPE of random_state (None / int / RandomState / np.random.Generator); CONCURRENT use (the same estimator or "
-    "function called from several threads, dask.delayed graphs computed with the threaded scheduler, module-level scratch buffers); the "
-    "KIND of file object or path (pathlib.Path, str, bytes path, StringIO, binary file, file positioned after a read); sub-classes that "
-    "override a method or class attribute the base relies on; copy.copy / copy.deepcopy / pickle round trips of fitted objects where the "
-    "property speaks of clones; negative zero, subnormal numbers, huge-but-finite values near overflow of an intermediate square; "
-    "behaviour that differs between the FIRST and LATER elements / blocks / windows / folds (loop-carried variable, else-branch of a for "
-    "loop, early break); behaviour for the LAST element (off-by-one at the end of a chunk); silent dependence on the ORDER in which "
-    "keyword options are applied; an exception type that changes (callers catching ValueError no longer do), or an error message path that "
-    "itself raises; a default that used to be computed per call and is now computed once at import or definition time"
+    "ARGUMENT ALIASING: the same array object (or overlapping views of one buffer) passed as two different arguments - easting is northing, "
+    "data is weights, query coordinates are the data coordinates, the region array is a slice of the coordinates; array SUBCLASSES and odd "
+    "ndarray kinds: np.matrix (stays 2-D under ravel / indexing), np.recarray fields, non-native byte order ('>f8'), zero-stride arrays from "
+    "np.broadcast_to, negative strides ([::-1]), float16, bool or object dtype holding numbers, complex with zero imaginary part; DEGENERATE "
+    "GEOMETRY the statement still covers: collinear points, all points identical, one or two points, constant data, some weights exactly zero, "
+    "a region of zero width or height, a single block / window / fold; NAMES: non-ASCII names, names with spaces, a data name or dimension "
+    "name that collides with an existing coordinate name ('easting', 'northing', 'distance'), very long names, names that are not str "
+    "(int, tuple); OPTION INTERPLAY: three options that are each tested alone (e.g. projection + extra coordinates + several data "
+    "components; center_coordinates + drop_coords + weights + region; pixel registration + adjust + per-direction spacing); engine / "
+    "backend selection ('auto' vs explicit 'numpy', optional dependencies such as numba or pykdtree being absent); USER SUBCLASSES of the "
+    "public base classes (a BaseGridder subclass that overrides predict or jacobian, a BlockReduce subclass, a cross-validator subclass) "
+    "relying on documented hooks; OUTPUT OF ONE PUBLIC FUNCTION FED INTO ANOTHER (grid -> grid_to_table -> BlockReduce -> fit; "
+    "train_test_split output into fit/score; grid_coordinates output into block_split / inside / rolling_window) where an attribute such "
+    "as dtype, contiguity, a read-only flag or an index survives the first call; lazily evaluated inputs (dask arrays, xarray objects "
+    "backed by dask) where the property covers them; mutation of the input BETWEEN creating a generator / lazy object and consuming it; "
+    "dependence on dict / set iteration order or on id()-based ordering; integer inputs large enough that an intermediate int32 / intp "
+    "product overflows; the documented behaviour for the SECOND and later components of multi-component data (loop variable captured, "
+    "first component reused); exceptions swallowed by a broad except that then falls back to a different algorithm"
 )
 
 
